@@ -84,17 +84,20 @@ def cell_name(kind, cfg):
     return 'cell:%s/decl-%s/%s' % (kind, cfg['decl'], 'coloring' if cfg['coloring'] else 'nocoloring')
 
 
-def gen_case(rng, kind, lite=False, cell=None):
-    """One case.  lite: small functions (quick tier); cell: configuration entries that are imposed."""
+def gen_case(rng, kind, lite=False, cell=None, hiorder=False, p_static=0.3):
+    """One case.  lite: small functions (quick tier); cell: configuration entries that are imposed; hiorder:
+    functions with higher-order stationary points (histories)."""
     jaxkind = kind.startswith('Jax')
-    with_static = bool(rng.random() < 0.3)
+    with_static = bool(rng.random() < p_static)
     # quick tier: the jax components whose partials are inferred from the source get the function style that the
     # inference has to see through (method forms on compound receivers)
-    methods = bool(lite and jaxkind and cell and cell.get('decl') == 'none' and not cell.get('matrix_free'))
+    methods = bool(lite and jaxkind and cell and cell.get('decl') == 'none' and not cell.get('matrix_free')
+                   and not hiorder)
+    kw = {'hiorder': True} if hiorder else {}
     if kind in ('ExplicitFuncComp', 'JaxExplicitComponent'):
-        fd = F.gen_explicit(rng, with_static=with_static, lite=lite, methods=methods)
+        fd = F.gen_explicit(rng, with_static=with_static, lite=lite, methods=methods, **kw)
     else:
-        fd = F.gen_implicit(rng, with_static=with_static, lite=lite, methods=methods)
+        fd = F.gen_implicit(rng, with_static=with_static, lite=lite, methods=methods, **kw)
     cfg = {'mode': str(pick(rng, ['fwd', 'rev'])), 'use_jit': bool(rng.random() < 0.5),
            'coloring': bool(rng.random() < 0.55), 'static_val': float(np.round(rng.uniform(0.5, 2.0), 3)),
            'shape_decl': str(pick(rng, ['shape', 'val']))}
@@ -148,6 +151,71 @@ def gen_case(rng, kind, lite=False, cell=None):
 
 
 # ----------------------------------------------------------------------------------------------
+# histories: the point of the FIRST linearization (where jax components detect their sparsity, once) is degenerate,
+# the judged linearizations happen later at generic points; optionally a second setup and changes of the static
+# (option / discrete input) value in between
+# ----------------------------------------------------------------------------------------------
+FIRST_CLASSES = ['zeros', 'defaults', 'equal', 'zeros', 'mixed', 'equal-per-var', 'sparse-zeros']
+LIN_VIA = ['linearize', 'totals', 'check_partials']
+HIST_CELLS = [{'decl': d, 'coloring': c, 'matrix_free': False, 'decl_where': w}
+              for c in (False, True) for (d, w) in (('none', 'setup_partials'), ('all', 'setup_partials'),
+                                                    ('pairs', 'setup_partials'), ('none', 'setup_partials'),
+                                                    ('all', 'setup'), ('pairs', 'setup'))]
+
+
+def _point(rng, cls, shapes):
+    """name -> nested list; shapes: name -> shape.  Degenerate classes: exact zeros, ones (the default values: the
+    point is not even set), equal entries, zero entries among generic ones."""
+    pt = {}
+    c_all = float(np.round(rng.uniform(-1.5, 1.5), 3))
+    for n, shp in shapes.items():
+        shp = tuple(shp)
+        k = cls
+        if k == 'mixed':
+            k = str(pick(rng, ['zeros', 'defaults', 'generic', 'equal-per-var', 'zeros']))
+        if k == 'zeros':
+            v = np.zeros(shp)
+        elif k == 'defaults':
+            v = np.ones(shp)
+        elif k == 'equal':
+            v = np.full(shp, c_all)
+        elif k == 'equal-per-var':
+            v = np.full(shp, float(np.round(rng.uniform(-1.5, 1.5), 3)))
+        elif k == 'sparse-zeros':
+            v = np.round(rng.uniform(-1.5, 1.5, size=shp), 6) * (rng.random(size=shp) < 0.5)
+        else:
+            v = np.round(rng.uniform(-1.5, 1.5, size=shp), 6)
+        pt[n] = (v + 0.0).tolist()
+    return pt
+
+
+def gen_hist_case(rng, kind, cell, first, lin_via):
+    case = gen_case(rng, kind, lite=True, cell=cell, hiorder=True, p_static=0.4)
+    fd, cfg = case['fdesc'], case['cfg']
+    cfg.setdefault('decl_where', 'setup_partials')
+    shapes = dict(fd['inputs'])
+    shapes.update(fd.get('states', {}))
+    h = {'first': first, 'lin_via': lin_via, 'resetup': None, 'static_seq': None}
+    classes = [first, 'generic', 'generic']
+    if rng.random() < 0.3:
+        # second setup: its first linearization is the degenerate one (the first setup saw a generic or another
+        # degenerate point)
+        h['resetup'] = 1
+        classes = [str(pick(rng, ['generic', 'zeros', first])), first, 'generic']
+    h['classes'] = classes
+    if fd['static']:
+        cfg['static_kind'] = str(pick(rng, ['option', 'discrete']))
+        if rng.random() < 0.75:
+            g = [float(np.round(rng.uniform(0.5, 2.0), 3)) for _ in range(3)]
+            v0 = pick(rng, [0.0, 1.0, g[0], g[0], g[0], g[0]])
+            h['static_seq'] = [float(v0), g[1], g[2]]
+            cfg['static_val'] = float(v0)
+    case['points'] = [_point(rng, c, shapes) for c in classes]
+    case['hist'] = h
+    return case
+
+
+# ----------------------------------------------------------------------------------------------
 # reference function (NumPy rendering, executed directly by the harness)
 # ----------------------------------------------------------------------------------------------
 def reference_callable(case):
@@ -161,18 +229,19 @@ def reference_callable(case):
     ns = {}
     exec(compile(src, '<omv-c34-reference>', 'exec'), ns)   # noqa: S102 - our own generated source
     fun = ns['ref']
-    kval = cfg['static_val']
+    static = [cfg['static_val']]    # current value of the static argument (histories change it)
     shapes = [tuple(fd['states'][s]) for s in fd['states']] if implicit else [tuple(s) for s in fd['outputs'].values()]
 
     def call(arrs):
         a = list(arrs)
         if fd['static']:
-            a.append(kval)
+            a.append(static[0])
         a = [np.asarray(x)[()] if np.ndim(x) == 0 else x for x in a]
         res = fun(*a)
         if not isinstance(res, tuple):
             res = (res,)
         return [np.broadcast_to(np.asarray(r), shp) for r, shp in zip(res, shapes)]
+    call.static = static
     return call, src
 
 
@@ -195,6 +264,9 @@ def _dependent_pairs(case, refcall, ofs, wrts, shapes_in):
     """(of, wrt) pairs whose reference derivative is nonzero at any of three random points."""
     rng = np.random.default_rng(12345)
     dep = set()
+    keep = refcall.static[0]
+    if case.get('hist'):
+        refcall.static[0] = 1.2345     # the static value of a history may be 0 at the start
     for _ in range(3):
         xs = [rng.uniform(-1.5, 1.5, size=s) for s in shapes_in]
         _, J = cs_jac(refcall, xs)
@@ -202,6 +274,7 @@ def _dependent_pairs(case, refcall, ofs, wrts, shapes_in):
             for ii, w in enumerate(wrts):
                 if np.any(J[oi][ii] != 0):
                     dep.add((o, w))
+    refcall.static[0] = keep
     return dep
 
 
@@ -253,7 +326,8 @@ def build_jaxcomp(case, refcall):
     implicit = case['kind'] == 'JaxImplicitComponent'
     base = 'om.JaxImplicitComponent' if implicit else 'om.JaxExplicitComponent'
     L = ['class Comp(%s):' % base]
-    if fd['static']:
+    discrete = bool(fd['static']) and cfg.get('static_kind') == 'discrete'
+    if fd['static'] and not discrete:
         L += ['    def initialize(self):',
               "        self.options.declare('kopt', default=%r)" % cfg['static_val'],
               '    def get_self_statics(self):',
@@ -279,22 +353,28 @@ def build_jaxcomp(case, refcall):
         for n, s in fd['outputs'].items():
             L.append('        self.add_output(%r, shape=%r)' % (n, tuple(s)))
         rets = list(fd['outputs'])
+    if discrete:
+        L.append("        self.add_discrete_input('kopt', val=%r)" % cfg['static_val'])
     sp = []
     if cfg['decl'] == 'all':
         sp.append("        self.declare_partials('*', '*')")
     elif cfg['decl'] == 'pairs':
         for (o, w) in sorted(_dependent_pairs(case, refcall, ofs, wrts, shapes_in)):
             sp.append('        self.declare_partials(%r, %r)' % (o, w))
+    if cfg.get('decl_where') == 'setup':
+        # declared in setup(): the component then does not add inferred declarations / detect the sparsity
+        L += sp
+        sp = []
     if cfg['coloring']:
         sp.append('        self.declare_coloring(show_summary=False)')
     if sp:
         L.append('    def setup_partials(self):')
         L += sp
-    args = ['self'] + [a for a in cfg['arg_order'] if a != fd['static']]
+    args = ['self'] + [a for a in cfg['arg_order'] if a != fd['static']] + (['kopt'] if discrete else [])
     L.append('    def compute_primal(%s):' % ', '.join(args))
     for ln in fd['lines']:
         ln = ln.replace('XP.', 'jnp.')
-        if fd['static']:
+        if fd['static'] and not discrete:
             ln = ln.replace('kopt', "self.options['kopt']")
         L.append('        ' + ln)
     if implicit:
@@ -328,6 +408,10 @@ def _subkind(case):
                 return kind + '/jax-coloring-mode-differs-from-best-direction'
     if kind == 'ExplicitFuncComp' and c['method'] == 'jax' and len(fd['inputs']) == 1:
         return kind + '/jax-single-arg'
+    if kind.startswith('Jax') and c.get('static_kind') == 'discrete' and not c['use_jit'] and \
+            (case.get('hist') or {}).get('static_seq'):
+        # without jit nothing signals a changed discrete value to the function that computes the jacobian
+        return kind + '/discrete-input-changes+nojit'
     if kind == 'JaxImplicitComponent' and c['coloring']:
         return kind + '/coloring'
     if kind.startswith('Jax') and c['decl'] == 'none' and any(re.search(r'\)\.[A-Za-z]', ln) for ln in fd['lines']):
@@ -356,14 +440,46 @@ def _where(e):
     return '%s:%d:%s' % (os.path.basename(fr.filename), fr.lineno, fr.name)
 
 
+ZERO_CLASS = '/first-linearization-where-a-derivative-is-exactly-zero'
+
+
 class Ctx(object):
     def __init__(self, case, acc):
         self.case, self.acc = case, acc
         self.bad = False
-        self.fp = fingerprint({'kind': case['kind'], 'f': case['fdesc']['lines'], 'cfg': case['cfg']})
+        self.fp = fingerprint({'kind': case['kind'], 'f': case['fdesc']['lines'], 'cfg': case['cfg'],
+                               'hist': case.get('hist')})
+        # histories: Z = structurally nonzero entries of the full jacobian whose reference value is exactly 0.0 at
+        # (and 1e-9 around) the point of the governing first linearization; row/column offsets of the blocks
+        self.Z = None
+        self.roff = self.coff = None
+        self.explained = self.unexplained = False
 
-    def viol(self, obs, what):
+    def explains(self, blk, mask):
+        """True if every offending entry of block blk=(oi, ii) (mask over the block) is an entry whose derivative is
+        exactly zero around the first linearization point, or - with coloring - shares a row/column with one (a
+        dropped entry merges columns/rows that really overlap, which corrupts their other entries).  blk None:
+        derived quantity (totals through a solve, converged state): explained iff the partials were."""
+        if self.Z is None or not self.Z.any():
+            return False
+        if blk is None:
+            return self.explained and not self.unexplained
+        oi, ii = blk
+        Z = self.Z
+        col = bool(self.case['cfg']['coloring'])
+        for r, c in zip(*np.nonzero(mask)):
+            R, C = self.roff[oi] + r, self.coff[ii] + c
+            if not (Z[R, C] or (col and (Z[R, :].any() or Z[:, C].any()))):
+                return False
+        return True
+
+    def viol(self, obs, what, explained=False):
         kind = _subkind(self.case)
+        if explained:
+            kind = self.case['kind'] + ZERO_CLASS
+            self.explained = True
+        else:
+            self.unexplained = True
         # mechanism (input class + observable) first, configuration cell last: one mechanism that shows in several
         # cells can be listed with a narrow '<input class>:<observable>:*' prefix
         self.acc.viol('%s:%s:%s' % (kind, obs, _cfgclass(self.case)), what, self.case, fp=self.fp,
@@ -371,7 +487,9 @@ class Ctx(object):
         self.bad = True
 
 
-def _cmp(ctx, obs, label, got, ref, tol):
+def _cmp(ctx, obs, label, got, ref, tol, blk=False):
+    """blk: (oi, ii) block of the component jacobian the compared array is / None for a derived quantity / False
+    when the first-linearization classification does not apply."""
     got = np.asarray(got, dtype=float)
     ref = np.asarray(ref, dtype=float)
     if got.size != ref.size:
@@ -379,9 +497,47 @@ def _cmp(ctx, obs, label, got, ref, tol):
         return False
     got = got.reshape(ref.shape)
     if not np.all(np.isfinite(got)) or np.any(np.abs(got - ref) > tol):
-        ctx.viol(obs, '%s: %s (tol %.3g)' % (label, worst(got, ref), float(np.max(tol))))
+        expl = False
+        if blk is not False and np.all(np.isfinite(got)):
+            expl = ctx.explains(blk, np.abs(got - ref) > tol)
+        ctx.viol(obs, '%s: %s (tol %.3g)' % (label, worst(got, ref), float(np.max(tol))), explained=expl)
         return False
     return True
+
+
+def _spread_abs(fun, xs, seed, nrep=3):
+    """perturbed_spread for degenerate points: operands perturbed by 1e-13 max(|x|, 1) (a relative perturbation
+    does not move an exact zero)."""
+    rng = np.random.default_rng(seed)
+    xs = [np.asarray(x, dtype=float) for x in xs]
+    o0, J0 = cs_jac(fun, xs)
+    Do = [np.zeros(o.shape) for o in o0]
+    DJ = [[np.zeros(j.shape) for j in row] for row in J0]
+    for _ in range(nrep):
+        xp = [x + 1e-13 * rng.uniform(-1, 1, size=x.shape) * np.maximum(np.abs(x), 1.0) for x in xs]
+        o1, J1 = cs_jac(fun, xp)
+        for i, o in enumerate(o1):
+            Do[i] = np.maximum(Do[i], np.abs(o - o0[i]))
+        for i, row in enumerate(J1):
+            for k, j in enumerate(row):
+                DJ[i][k] = np.maximum(DJ[i][k], np.abs(j - J0[i][k]))
+    return o0, J0, Do, DJ
+
+
+def _first_point_classes(refcall, allx, seed, S):
+    """Reference jacobian 1e-9 around a first-linearization point (the way the sparsity detection samples it: relative
+    perturbation, absolute where the value is 0).  Returns boolean matrices over the full jacobian, restricted to the
+    structurally nonzero entries S: Z exactly 0.0 in all samples; tiny: nonzero but below eps x largest entry;
+    small: below 1e-6 x largest entry."""
+    rng = np.random.default_rng(seed)
+    zero = np.ones(S.shape, dtype=bool)
+    rel = np.zeros(S.shape)
+    for _ in range(3):
+        xp = [x + 1e-9 * rng.uniform(0.1, 1.0, size=x.shape) * np.where(x == 0, 1.0, x) for x in allx]
+        J = np.abs(np.block(cs_jac(refcall, xp)[1]))
+        zero &= (J == 0)
+        rel = np.maximum(rel, J / max(float(J.max()), 1e-300))
+    return S & zero, S & ~zero & (rel < EPS), S & (rel < 1e-6)
 
 
 def _fd_bound(refcall, xs, J0, o0):
@@ -452,6 +608,29 @@ def judge(case, acc, seed=0):
             ctx.viol('setup-raises:' + type(e).__name__, '%s at %s: %s' % (type(e).__name__, _where(e), str(e)[:400]))
             return
         mode = cfg['mode']
+        hist = case.get('hist')
+        first_idx, tiny_first, S = 0, False, None
+        if hist:
+            acc.count('hist:first-' + hist['first'])
+            acc.count('hist:lin-via-' + hist['lin_via'])
+            if hist['resetup'] is not None:
+                acc.count('hist:resetup')
+            if hist['static_seq']:
+                acc.count('hist:static-change-' + cfg['static_kind'])
+            if cfg.get('decl_where') == 'setup' and cfg['decl'] != 'none':
+                acc.count('hist:declared-in-setup')
+            # structurally nonzero entries of the full jacobian: reference at two generic points, generic static value
+            keep = refcall.static[0]
+            refcall.static[0] = 1.2345
+            grng = np.random.default_rng(4321)
+            allshapes = [tuple(fd['inputs'][n]) for n in in_names] + [tuple(fd['states'][n]) for n in st_names]
+            for _ in range(2):
+                Jg = np.block(cs_jac(refcall, [grng.uniform(-1.5, 1.5, size=shp) for shp in allshapes])[1])
+                S = (Jg != 0) if S is None else (S | (Jg != 0))
+            refcall.static[0] = keep
+            osz = [F.size(fd['states'][n]) if implicit else F.size(fd['outputs'][n]) for n in out_names]
+            ctx.roff = [int(v) for v in np.concatenate([[0], np.cumsum(osz)])]
+            ctx.coff = [int(v) for v in np.concatenate([[0], np.cumsum([F.size(shp) for shp in allshapes])])]
         for pi, pt in enumerate(case['points']):
             tag = '' if pi == 0 else ':2nd-point'
             if pi > 0 and ctx.bad:
@@ -459,23 +638,65 @@ def judge(case, acc, seed=0):
             xs = [np.array(pt[n], dtype=float).reshape(tuple(fd['inputs'][n])) for n in in_names]
             ss = [np.array(pt[n], dtype=float).reshape(tuple(fd['states'][n])) for n in st_names]
             allx = xs + ss
-            o0, J0, Do, DJ = perturbed_spread(refcall, allx, seed * 31 + pi)
+            is_first = False
+            if hist:
+                seq = hist['static_seq']
+                if seq:
+                    refcall.static[0] = seq[pi]
+                is_first = pi == 0 or pi == hist['resetup']
+                if is_first:
+                    first_idx = pi
+                    ctx.Z, tiny, small = _first_point_classes(refcall, allx, seed * 31 + 7 + pi, S)
+                    tiny_first = bool(tiny.any())
+                    if small.any():
+                        acc.count('obs:hist:derivative-vanishes-at-first-linearization')
+                    if tiny_first:
+                        acc.count('obs:hist:derivative-below-roundoff-at-first-linearization')
+                    if ctx.Z.any():
+                        acc.count('obs:hist:derivative-exactly-zero-at-first-linearization')
+                    tag = ':first-linearization-at-%s%s' % (hist['classes'][pi], '+resetup' if pi else '')
+                else:
+                    tag = ':after-first-linearization-at-%s%s%s' % (
+                        hist['classes'][first_idx], '+resetup' if first_idx else '',
+                        '+static-changed' if seq and seq[pi] != seq[first_idx] else '')
+            if hist and hist['classes'][pi] != 'generic':
+                o0, J0, Do, DJ = _spread_abs(refcall, allx, seed * 31 + pi)
+            else:
+                o0, J0, Do, DJ = perturbed_spread(refcall, allx, seed * 31 + pi)
             extra = None
             if cfg['method'] == 'fd':
                 extra = _fd_bound(refcall, allx, J0, o0)
+            blk_of = (lambda oi, ii: (oi, ii)) if hist else (lambda oi, ii: False)
+            derived = None if hist else False
+            # first linearization through compute_totals / the Newton solve: no explicit linearize call before it
+            skip_lin = bool(hist and is_first and hist['lin_via'] == 'totals')
             try:
-                for n, x in zip(in_names, xs):
-                    prob.set_val('ivc.' + n, x)
-                if implicit:
+                if hist and hist['resetup'] == pi:
+                    prob.setup(mode=cfg['mode'])
+                    prob.final_setup()
+                if hist and hist['static_seq']:
+                    if cfg['static_kind'] == 'discrete':
+                        prob.set_val('c.kopt', hist['static_seq'][pi])
+                    else:
+                        comp.options['kopt'] = hist['static_seq'][pi]
+                if not (hist and pi == 0 and hist['classes'][0] == 'defaults'):   # defaults: nothing is set
+                    for n, x in zip(in_names, xs):
+                        prob.set_val('ivc.' + n, x)
                     for n, s in zip(st_names, ss):
                         prob.set_val('c.' + n, s)
+                if implicit:
                     # propagate inputs without touching the states: run the ivc transfer via apply_nonlinear
                     prob.model.run_apply_nonlinear()
                     res = [np.asarray(comp._residuals[n], dtype=float).copy() for n in st_names]
-                    prob.model.run_linearize()
+                    if hist and is_first and hist['lin_via'] == 'check_partials':
+                        prob.check_partials(out_stream=None)
+                    if not skip_lin:
+                        prob.model.run_linearize()
                 else:
                     prob.run_model()
                     res = [np.asarray(prob.get_val('c.' + n), dtype=float) for n in out_names]
+                    if hist and is_first and hist['lin_via'] == 'check_partials':
+                        prob.check_partials(out_stream=None)
             except Exception as e:
                 ctx.viol('run-raises:%s%s' % (type(e).__name__, tag),
                          '%s at %s: %s' % (type(e).__name__, _where(e), str(e)[:400]))
@@ -490,7 +711,7 @@ def judge(case, acc, seed=0):
                 _cmp(ctx, ('residual' if implicit else 'output') + tag, ('residual of ' if implicit else 'output ') + n,
                      res[k], o0[k], tol_of(o0[k], Do[k]))
             # ---- sub-jacobians stored by the component
-            if not cfg.get('matrix_free'):
+            if not cfg.get('matrix_free') and not skip_lin:
                 if not implicit:
                     try:
                         prob.model.run_linearize()
@@ -510,9 +731,10 @@ def judge(case, acc, seed=0):
                         if sj is None:
                             if np.any(ref != 0):
                                 ctx.viol('partials-undeclared-nonzero' + tag,
-                                         'd%s/d%s is not declared but the derivative is nonzero' % (o, w))
+                                         'd%s/d%s is not declared but the derivative is nonzero' % (o, w),
+                                         explained=bool(hist) and ctx.explains((oi, ii), ref != 0))
                             continue
-                        _cmp(ctx, 'partials' + tag, 'partial d%s/d%s' % (o, w), sj, ref, tol)
+                        _cmp(ctx, 'partials' + tag, 'partial d%s/d%s' % (o, w), sj, ref, tol, blk=blk_of(oi, ii))
             # ---- totals
             try:
                 if implicit:
@@ -523,7 +745,8 @@ def judge(case, acc, seed=0):
                                           return_format='flat_dict')
             except Exception as e:
                 ctx.viol('totals-raises:%s%s' % (type(e).__name__, tag),
-                         '%s at %s: %s' % (type(e).__name__, _where(e), str(e)[:400]))
+                         '%s at %s: %s' % (type(e).__name__, _where(e), str(e)[:400]),
+                         explained=bool(hist) and ctx.explains(None, None))
                 return
             if implicit:
                 # reference solve: Newton on the NumPy function
@@ -557,7 +780,7 @@ def judge(case, acc, seed=0):
                     for k, n in enumerate(st_names):
                         # Newton stopped at |R| <= 1e-13 (abs) => state error <= cond-scaled 1e-13
                         _cmp(ctx, 'solved-state' + tag, 'converged state ' + n, sol[k], sref[k],
-                             1e-11 * condA * (1.0 + np.abs(sref[k])))
+                             1e-11 * condA * (1.0 + np.abs(sref[k])), blk=derived)
                     # conditioning of the totals: perturb inputs and states by 1e-13 relative
                     rng = np.random.default_rng(seed + 5)
                     DT = np.zeros(T.shape)
@@ -576,7 +799,7 @@ def judge(case, acc, seed=0):
                                 tol = tol + 1e-4 * condA * (np.max(np.abs(T)) + 1.0)
                             acc.count('obs:totals-' + mode)
                             _cmp(ctx, 'totals-%s%s' % (mode, tag), 'total d%s/d%s' % (o, w), tot['c.' + o, 'ivc.' + w],
-                                 ref, tol)
+                                 ref, tol, blk=derived)
                             c0 += nc
                         r0 += nr
             else:
@@ -588,9 +811,20 @@ def judge(case, acc, seed=0):
                             tol = tol + extra[oi][ii]
                         acc.count('obs:totals-' + mode)
                         _cmp(ctx, 'totals-%s%s' % (mode, tag), 'total d%s/d%s' % (o, w), tot['c.' + o, 'ivc.' + w],
-                             ref, tol)
+                             ref, tol, blk=blk_of(oi, ii))
             if pi == 1:
                 acc.count('obs:second-point')
+            if hist and not is_first:
+                # a linearization judged after the one that fixed the sparsity pattern
+                acc.count('obs:hist:judged-after-first-linearization')
+                if tiny_first and not cfg.get('matrix_free'):
+                    acc.count('obs:hist:judged-after-below-roundoff-derivative:' + kind)
+                    acc.count('obs:hist:judged-after-below-roundoff-derivative:' +
+                              ('coloring' if cfg['coloring'] else 'nocoloring'))
+                if first_idx:
+                    acc.count('obs:hist:judged-after-second-setup')
+                if hist['static_seq'] and hist['static_seq'][pi] != hist['static_seq'][first_idx]:
+                    acc.count('obs:hist:judged-after-static-change:' + cfg['static_kind'])
         # ---- evidence
         try:
             if comp._coloring_info.coloring is not None:
@@ -620,9 +854,12 @@ def shards(tier, seed):
         # 6 shards x 4 rounds x (4 component classes on the grid + 4 cheap cs/fd function components) = 192 small
         # cases; few shards, because the import of jax/openmdao and the compilation of jax primitives are paid once
         # per process (a jax case costs 1-3 CPU-seconds, a cs/fd case < 0.1)
+        # + 8 shards x 8 histories of jax components (first linearization at a degenerate point)
         return [{'seed': seed * 9973 + k, 'per': 4, 'lite': True, 'index': k, 'offset': seed, 'extra': 2}
-                for k in range(6)]
-    return [{'seed': seed * 9973 + k, 'per': 20} for k in range(48)]
+                for k in range(6)] + \
+            [{'seed': seed * 9973 + 500 + k, 'hist': 8, 'index': k, 'offset': seed, 'nshards': 8} for k in range(8)]
+    return [{'seed': seed * 9973 + k, 'per': 20} for k in range(48)] + \
+        [{'seed': seed * 9973 + 500 + k, 'hist': 60, 'index': k, 'offset': seed, 'nshards': 16} for k in range(16)]
 
 
 def run_shard(shard, acc):
@@ -630,6 +867,16 @@ def run_shard(shard, acc):
     jax.config.update('jax_enable_x64', True)
     rng = np.random.default_rng(shard['seed'])
     lite = bool(shard.get('lite'))
+    if shard.get('hist'):
+        for rep in range(shard['hist']):
+            # global running index: component class alternates, the configuration grid, the class of the first point and
+            # the way the first linearization is triggered are walked with co-prime strides
+            g = rep * shard['nshards'] + shard['index'] + shard['offset'] * 7
+            kind = KINDS[2 + g % 2]
+            cell = HIST_CELLS[(g // 2) % len(HIST_CELLS)]
+            case = gen_hist_case(rng, kind, cell, FIRST_CLASSES[(g // 2) % len(FIRST_CLASSES)], LIN_VIA[g % len(LIN_VIA)])
+            judge(case, acc, seed=shard['seed'] + rep)
+        return
     for rep in range(shard['per']):
         for ki, kind in enumerate(KINDS):
             cell = None
